@@ -1,4 +1,89 @@
-import Geo.Spec.Basic
+/-
+  C14 — quadric–line intersection, tangents, polars and duals are mutually consistent.
+-/
+import Geo.Gen.Kernels
+import Geo.Kernels
+import Geo.Proofs.Lemmas
+import Mathlib.Tactic.FieldSimp
+import Mathlib.LinearAlgebra.Matrix.NonsingularInverse
 namespace Geo
-theorem C14_placeholder : (1 : Nat) = 1 := rfl
+open Spec
+
+section
+variable {K : Type} [CommRing K]
+
+/-- skew matrix of the code's `hat_matrix` (n = 3): `hat(x)_{jk} = ε_{jkl} x_l` -/
+def hat (x : Nat → K) (j k : Nat) : K :=
+  match j, k with
+  | 0, 1 => x 2 | 1, 0 => -(x 2)
+  | 0, 2 => -(x 1) | 2, 0 => x 1
+  | 1, 2 => x 0 | 2, 1 => -(x 0)
+  | _, _ => 0
+
+/-- the closed form above is the regenerated `hat_matrix` -/
+theorem T14_hat_is_code (x : Nat → K) :
+    ∀ j k, j < 3 → k < 3 → (hatMatrix3 Gen.hat3I Gen.hat3J x).get j k = hat x j k := by
+  intro j k hj hk
+  interval_cases j <;> interval_cases k <;> simp [hatMatrix3, Gen.hat3I, Gen.hat3J, Mat.ofFn, Mat.get, hat, List.find?, List.range_succ]
+
+/-- **T14.1** reduction of "quadric ∩ line l" to a degenerate dual conic: with `m = hat(l)`, `uᵀ(mᵀ A m)u = (u×l)ᵀ A (u×l)`;
+    the points of l are exactly the cross products `u × l`, so `mᵀAm` vanishes on u iff the point `u × l` of the line lies on
+    the quadric -/
+theorem T14_1_line_reduction (A : Nat → Nat → K) (l u : Nat → K) :
+    (sumRange 3 fun j => sumRange 3 fun k => u j *
+        (sumRange 3 fun a => sumRange 3 fun b => hat l a j * A a b * hat l b k) * u k)
+      = sumRange 3 fun a => sumRange 3 fun b => cross u l a * A a b * cross u l b := by
+  simp [sumRange, hat, cross]
+  ring
+
+/-- **T14.2** decomposition of a rank-2 symmetric matrix `B = g hᵀ + h gᵀ`: its adjugate is `−(g×h)(g×h)ᵀ`, and adding the
+    skew matrix of `±(g×h)` gives `2 g hᵀ` resp. `2 h gᵀ` — so any non-zero row / column of `B + hat(p)` is one of the components -/
+theorem T14_2_decomposition (g h : Nat → K) :
+    (∀ j k, j < 3 → k < 3 →
+      (Mat.adjugate (Mat.ofFn 3 3 fun a b => g a * h b + h a * g b)).get j k = -(cross g h j * cross g h k)) ∧
+    (∀ j k, j < 3 → k < 3 → (g j * h k + h j * g k) + hat (cross g h) j k = 2 * (g j * h k)) ∧
+    (∀ j k, j < 3 → k < 3 → (g j * h k + h j * g k) + hat (fun i => -(cross g h i)) j k = 2 * (h j * g k)) := by
+  refine ⟨?_, ?_, ?_⟩
+  · intro j k hj hk
+    interval_cases j <;> interval_cases k <;>
+      simp [Mat.adjugate, Mat.detAux, Mat.ofFn, Mat.get, Mat.minor, sumRange, List.range_succ, cross] <;> ring
+  · intro j k hj hk
+    interval_cases j <;> interval_cases k <;> simp [hat, cross] <;> ring
+  · intro j k hj hk
+    interval_cases j <;> interval_cases k <;> simp [hat, cross] <;> ring
+
+/-- **T14.3** a secant through two points p₁, p₂ of the quadric (`pᵢᵀApᵢ = 0`), `l = p₁ × p₂`: the reduced matrix is
+    `(p₁ᵀAp₂) · (−(p₁p₂ᵀ + p₂p₁ᵀ))`… stated on the quadratic form: for every u,
+    `(u×l)ᵀA(u×l) = −2 (u·p₁)(u·p₂)(p₁ᵀAp₂)·(−1)`; so the degenerate dual conic consists exactly of p₁ and p₂ -/
+theorem T14_3_secant (A : Nat → Nat → K) (p1 p2 u : Nat → K) (hs : ∀ a b, A a b = A b a)
+    (h1 : (sumRange 3 fun a => sumRange 3 fun b => p1 a * A a b * p1 b) = 0)
+    (h2 : (sumRange 3 fun a => sumRange 3 fun b => p2 a * A a b * p2 b) = 0) :
+    (sumRange 3 fun a => sumRange 3 fun b => cross u (cross p1 p2) a * A a b * cross u (cross p1 p2) b)
+      = -2 * (dot 3 u p1) * (dot 3 u p2) * (sumRange 3 fun a => sumRange 3 fun b => p1 a * A a b * p2 b) := by
+  simp only [sumRange, cross, dot] at h1 h2 ⊢
+  have s01 := hs 0 1; have s02 := hs 0 2; have s12 := hs 1 2
+  rw [s01, s02, s12] at h1 h2 ⊢
+  simp only [hs 1 0, hs 2 0, hs 2 1] at h1 h2 ⊢
+  linear_combination ((u 0 * p2 0 + u 1 * p2 1 + u 2 * p2 2) ^ 2) * h1 + ((u 0 * p1 0 + u 1 * p1 1 + u 2 * p1 2) ^ 2) * h2
+
+end
+
+section
+open Matrix
+variable {n : Type} [Fintype n] [DecidableEq n] {F : Type} [Field F]
+
+/-- **T14.5** (every dimension): the tangent hyperplane `A p` at a point of the quadric contains the point and is tangent
+    (`(Ap)ᵀ A⁻¹ (Ap) = pᵀAp`); pole and polar are reciprocal (`A` symmetric); the dual of the dual is the quadric -/
+theorem T14_5_tangent (A : Matrix n n F) (hA : IsUnit A.det) (hs : Aᵀ = A) (p : n → F) :
+    (A.mulVec p ⬝ᵥ p = p ⬝ᵥ A.mulVec p) ∧
+    (A.mulVec p ⬝ᵥ (A⁻¹).mulVec (A.mulVec p) = p ⬝ᵥ A.mulVec p) ∧
+    (A⁻¹)⁻¹ = A := by
+  refine ⟨dotProduct_comm _ _, ?_, Matrix.nonsing_inv_nonsing_inv A hA⟩
+  rw [Matrix.mulVec_mulVec, Matrix.nonsing_inv_mul _ hA, Matrix.one_mulVec, dotProduct_comm]
+
+theorem T14_5_polar_reciprocity (A : Matrix n n F) (hs : Aᵀ = A) (x y : n → F) :
+    A.mulVec x ⬝ᵥ y = A.mulVec y ⬝ᵥ x := by
+  rw [dotProduct_comm (A.mulVec x) y, Matrix.dotProduct_mulVec, ← Matrix.mulVec_transpose, hs]
+
+end
 end Geo
